@@ -39,6 +39,7 @@ _REAL = {
     "os_lstat": os.lstat, "os_chmod": os.chmod, "os_access": os.access, "os_utime": os.utime,
     "islink": os.path.islink, "os__exit": os._exit, "sleep": time.sleep,
     "thread_start": threading.Thread.start, "mmap": _mmap_mod.mmap, "scandir": os.scandir,
+    "readlink": os.readlink,
 }
 NAME_MAX = 255
 DEV_STD = {"/dev/stdin": 0, "/dev/fd/0": 0, "/proc/self/fd/0": 0,
@@ -523,6 +524,7 @@ class SimFS:
         self.aliases = {}       # path -> "f<k>" in order of first use (temp names may be random)
         self.modes = {}         # path -> permission bits set by the tool
         self.fifos = {}         # path -> (bytes, ChunkSchedule, damaged offsets): named pipes
+        self.symlinks = {}      # path -> target path
         self.whiteouts = set()  # real paths the tool "removed" (the real file is never touched)
         self.dirs = set()       # directories the tool created
         self.log = EventLog()
@@ -707,7 +709,7 @@ class World:
     """Context manager that installs every seam, and removes it again."""
 
     def __init__(self, stdin_data=None, stdin_sched=None, stdout_sched=None, stdin_damaged=(),
-                 vcwd=None, stdout_unbuffered=False, environ=None, stdin_file=None):
+                 vcwd=None, stdout_unbuffered=False, environ=None, stdin_file=None, tty=False):
         self.fs = SimFS()
         self.vcwd = (vcwd or VCWD).rstrip("/") + "/"
         self.log = self.fs.log
@@ -744,6 +746,10 @@ class World:
         self.clock = StepClock()
         self._saved = None
         self.slept = 0.0
+        self.tty = bool(tty)
+        if self.tty:
+            self.stdout_raw.isatty = lambda: True
+            self.stdin_raw.isatty = lambda: True
         self.threads_started = 0
         self.environ = dict(environ or {})
         self._env_saved = {}
@@ -896,12 +902,31 @@ class World:
 
     def _islink(self, path):
         try:
-            vp = self._vpath(path)
+            vp = self._vpath(path, follow=False)
         except Exception:
             return False
         if vp is None:
             return _REAL["islink"](path)
-        return False
+        return vp in self.fs.symlinks
+
+    def _os_lstat(self, path, *a, **kw):
+        try:
+            vp = self._vpath(path, follow=False)
+        except Exception:
+            vp = None
+        if vp is not None and vp in self.fs.symlinks:
+            import stat
+            return os.stat_result((stat.S_IFLNK | 0o777, 2000 + len(vp), 0x51F5, 1, 0, 0,
+                                   len(self.fs.symlinks[vp].encode()), 0, 0, 0))
+        return self._os_stat(path, *a, **kw)
+
+    def _readlink(self, path, *a, **kw):
+        vp = self._vpath(path, follow=False)
+        if vp is not None and vp in self.fs.symlinks:
+            return self.fs.symlinks[vp]
+        if vp is None:
+            return _REAL["readlink"](path, *a, **kw)
+        raise OSError(22, "Invalid argument", path)
 
     def _os_fstat(self, fd):
         if fd == 0 and self.stdin_is_file:
@@ -939,7 +964,9 @@ class World:
         raise FileNotFoundError(2, "No such file or directory", path)
 
     def _os_isatty(self, fd):
-        if fd in (0, 1, 2) or fd in self.fds:
+        if fd in (0, 1, 2):
+            return self.tty
+        if fd in self.fds:
             return False
         return _REAL["os_isatty"](fd)
 
@@ -1050,16 +1077,21 @@ class World:
     # The simulated file system is an overlay: every write lands in SimFS (the real disk is
     # never touched), reads see SimFS first and the real disk (read-only) behind it, and
     # relative paths live in an empty virtual working directory.
-    def _vpath(self, path, writing=False):
+    def _vpath(self, path, writing=False, follow=True):
         """Virtual path if SimFS must serve `path`, else None (real, read-only)."""
         p = SimFS.norm(path)
         if any(len(c.encode("utf-8", "surrogateescape")) > NAME_MAX for c in p.split("/")):
             raise OSError(36, "File name too long", path)
         if not posixpath.isabs(p):
-            return posixpath.normpath(self.vcwd + p)
+            p = posixpath.normpath(self.vcwd + p)
         p = posixpath.normpath(p)
+        for _ in range(8):                      # follow symbolic links (final component)
+            if follow and p in self.fs.symlinks:
+                p = posixpath.normpath(posixpath.join(posixpath.dirname(p), self.fs.symlinks[p]))
+            else:
+                break
         if writing or p.startswith(SIMROOT) or p in self.fs.files or p in self.fs.whiteouts \
-                or p in self.fs.fifos:
+                or p in self.fs.fifos or p in self.fs.symlinks:
             return p
         return None
 
@@ -1115,6 +1147,14 @@ class World:
         return self.fs.open(file, mode, *a, vpath=vp, **kw)
 
     def _remove(self, path, *a, **kw):
+        try:
+            lp = self._vpath(path, follow=False)
+            if lp in self.fs.symlinks:
+                del self.fs.symlinks[lp]          # unlink removes the link, not its target
+                self.fs.removed.append(lp)
+                return None
+        except TypeError:
+            pass
         try:
             if DEV_STD.get(posixpath.normpath(SimFS.norm(path))) is not None:
                 # the simulated process is an ordinary user: it may not unlink entries of /dev
@@ -1184,7 +1224,8 @@ class World:
         os.rename = os.replace = self._os_rename
         os.path.isdir, os.makedirs, os.listdir = self._isdir, self._os_makedirs, self._os_listdir
         os.getcwd, os.chdir = self._os_getcwd, self._os_chdir
-        os.lstat, os.chmod, os.access, os.utime = self._os_stat, self._os_chmod, self._os_access, self._os_utime
+        os.lstat, os.chmod, os.access, os.utime = self._os_lstat, self._os_chmod, self._os_access, self._os_utime
+        os.readlink = self._readlink
         os.path.islink = self._islink
         os._exit = self._os__exit
         time.sleep = self._sleep
@@ -1227,6 +1268,7 @@ class World:
         os.lstat, os.chmod, os.access, os.utime = (_REAL["os_lstat"], _REAL["os_chmod"], _REAL["os_access"],
                                                    _REAL["os_utime"])
         os.path.islink = _REAL["islink"]
+        os.readlink = _REAL["readlink"]
         os._exit = _REAL["os__exit"]
         time.sleep = _REAL["sleep"]
         threading.Thread.start = _REAL["thread_start"]
